@@ -5,7 +5,7 @@ import vlib
 
 
 def scripts_for(tier, rng):
-    n = 2500 if tier == "quick" else 30000
+    n = 6000 if tier == "quick" else 40000
     return [dict(id="f%05d" % i, tasks=rng.choice([1, 2, 2, 3, 4]), raisers=rng.choice([1, 1, 2]),
                  seed=rng.randrange(1 << 40), spurious=rng.random() < 0.3, early=rng.random() < 0.1)
             for i in range(n)]
